@@ -7,6 +7,8 @@ Decided (see DESIGN.md section 3, C01):
          make_middleware_chain, whose result is the only value ever stored in _execute, which is the
          callable execute() injects into; the preprovided set is url | builtins | resources; execute() offers the whole of
          self.resources and passes its call-time parameters on unfiltered (what binding counted as available is there per request);
+         the names counted as provided by the URL are the keys of the table match_path fills the URL parameters from, and a
+         mapping match_path returns has a value for every one of them;
          the stack handed to make_middleware_chain is every middleware of the route and of the binding application and nothing
          else: merge_middlewares loses none and builds a list of its own (the application's list is not the accumulator);
   R01.b  unresolved => NameError (three make_chain results, two 'next' tests); the NameError is what the caller gets:
@@ -258,6 +260,8 @@ def run(rep):
     g = rep.guard
     g(check_eager_binding, rep, 'R01.a')
     g(chain.check_execute_offers_provided, rep, 'R01.a')
+    g(chain.check_url_source_agreement, rep, 'R01.a')
+    g(chain.check_url_params_complete, rep, 'R01.a')
     g(chain.check_merge_complete, rep, 'R01.a')
     g(chain.check_unresolved_raises, rep, 'R01.b')
     g(chain.check_chain_argspec, rep, 'R01.c')
